@@ -366,8 +366,13 @@ func evalCase(d caseDesc) ev.Result {
 		}
 		atk := keys.Get(d.Cfg.Kind(), deploy.KeyStranger)
 		pss := keys.IsRSA(d.Cfg.Kind()) && d.Cfg.PSS()
-		sb, _ := signerKey(d.Cfg, b, a.Signer)
-		forged, err := wire.TakeOver(items, a.Entry%len(items), pubNode(d.Cfg, atk), sb, wire.AlgFor(sb.Public(), pss), atk, wire.AlgFor(atk.Public(), pss), a.Tail)
+		var sb crypto.Signer
+		sbAlg := int64(0)
+		if a.Signer != "keep-sig" {
+			sb, _ = signerKey(d.Cfg, b, a.Signer)
+			sbAlg = wire.AlgFor(sb.Public(), pss)
+		}
+		forged, err := wire.TakeOver(items, a.Entry%len(items), pubNode(d.Cfg, atk), sb, sbAlg, atk, wire.AlgFor(atk.Public(), pss), a.Tail)
 		if err != nil {
 			return ev.Failf("setup", "takeover: %v", err)
 		}
@@ -581,7 +586,7 @@ func genCase(t *rapid.T) caseDesc {
 	case "takeover":
 		d.Attack.Entry = rapid.IntRange(0, d.Chain-1).Draw(t, "entry")
 		d.Attack.Tail = rapid.IntRange(0, 2).Draw(t, "tail")
-		d.Attack.Signer = rapid.SampledFrom([]string{"stranger", "stranger", "device", "earlier", "mfg", "owner"}).Draw(t, "signer")
+		d.Attack.Signer = rapid.SampledFrom([]string{"stranger", "stranger", "keep-sig", "keep-sig", "device", "earlier", "mfg", "owner"}).Draw(t, "signer")
 	}
 	return d
 }
@@ -614,7 +619,7 @@ func TestC06(t *testing.T) {
 		}
 		return res
 	})
-	r.SetRule("attacks", "configuration × chain × TTL policy × requested TTL × {fresh server, GUID already registered by the genuine owner in an earlier session} × one forgery of TO0.OwnerSign built by a manual owner from the CDDL: one structure-aware mutation anywhere (to0d incl. the embedded voucher, wait seconds, nonce; to1d payload, protected header, signature, hash), signer ∈ {earlier owner, manufacturer, device key, stranger, key of another kind}, OwnerSign replayed in a fresh session, zero-entry voucher, to1d taken from another device's registration, hash with other algorithm / wrong value / HMAC id, no preceding Hello, take-over of entry p (genuine hashes, names the stranger, signed by stranger/device/earlier owner/manufacturer/current owner, 0..2 further entries honestly built by the stranger, redirect signed by the stranger), rearranged entry lists (last or all entries grafted from another device's voucher with the same owners, duplicated last entry, swapped or dropped entries) correctly hashed and signed by the genuine owner. Oracle: SetRVBlob appears in the journal and type 23 is returned only if an independent reference accepts the bytes sent (≥1 entry, chain verifies, hash(to0d)=to1d hash, nonce issued in this session, to1d signed by the current owner key) and the policy admits; otherwise type 255 and nothing stored; TTL semantics as in controls. Non-trivial: every forged request and every non-default policy; distinct by descriptor.")
+	r.SetRule("attacks", "configuration × chain × TTL policy × requested TTL × {fresh server, GUID already registered by the genuine owner in an earlier session} × one forgery of TO0.OwnerSign built by a manual owner from the CDDL: one structure-aware mutation anywhere (to0d incl. the embedded voucher, wait seconds, nonce; to1d payload, protected header, signature, hash), signer ∈ {earlier owner, manufacturer, device key, stranger, key of another kind}, OwnerSign replayed in a fresh session, zero-entry voucher, to1d taken from another device's registration, hash with other algorithm / wrong value / HMAC id, no preceding Hello, take-over of entry p (genuine hashes, names the stranger, signed by stranger/device/earlier owner/manufacturer/current owner or carrying the genuine signature bytes over the changed payload, 0..2 further entries honestly built by the stranger, redirect signed by the stranger), rearranged entry lists (last or all entries grafted from another device's voucher with the same owners, duplicated last entry, swapped or dropped entries) correctly hashed and signed by the genuine owner. Oracle: SetRVBlob appears in the journal and type 23 is returned only if an independent reference accepts the bytes sent (≥1 entry, chain verifies, hash(to0d)=to1d hash, nonce issued in this session, to1d signed by the current owner key) and the policy admits; otherwise type 255 and nothing stored; TTL semantics as in controls. Non-trivial: every forged request and every non-default policy; distinct by descriptor.")
 	ev.Rapid(r, "attacks", ev.N{Quick: 8000, Thorough: 200000}, genCase, evalCase)
 	ev.CheckWitness(r, "attacks", evalCase)
 }
